@@ -426,7 +426,30 @@ func intBoundBlock() fam {
 	return fam{"intbound", ps, ins, nil}
 }
 
+// computednav: navigation FROM A COMPUTED VALUE inside path expressions, updates and deletions, with every kind of
+// navigation (constant and computed keys, slices, iteration, optional forms) from every type of value: both the order of the
+// two checks (type of the value navigated from vs. path integrity) and the error class must be the same whether the index is
+// compiled as opindex (constant key) or as a call of _index/_slice (seeded change C04-r6a: pathIntact hoisted in opindex only)
+func computedNavBlock() fam {
+	srcs := []string{"1", "\"s\"", "null", "true", "[1, 2]", "{\"a\": 1}", "(.a | tostring?)", "[.[]?]", "{x: .}", "(.. | numbers)", "(.a, 1)", "first(.[]?, 1)"}
+	navs := []string{".a", ".[0]", ".[1:2]", ".[]", ".a?", ".[0]?", ".[]?", ".[\"a\"]", ".a.b", ".[-1]", ".x", ".[1:]?"}
+	wrappers := []string{"[path(%s | %s)]", "path(%s | %s)", "(%s | %s) = 1", "(%s | %s) |= 2", "del(%s | %s)", "[paths(%s | %s)]", "try path(%s | %s) catch \"caught\"", "[(%s | %s)?]"}
+	var ps []string
+	for i, a := range srcs {
+		for j, n := range navs {
+			for k, w := range wrappers {
+				if k > 1 && (i+j+k)%3 != 0 {
+					continue
+				}
+				ps = append(ps, fmt.Sprintf(w, a, n))
+			}
+		}
+	}
+	ins := []any{map[string]any{"a": map[string]any{"b": 1}, "x": []any{1}}, []any{1, []any{2}}, nil, "s", map[string]any{"a": 1}}
+	return fam{"computednav", ps, ins, nil}
+}
+
 // the deterministic blocks, in the order they run
 func firstBlocks() []fam {
-	return []fam{regressBlock(), scopeBlock(), calleeBlock(), boundaryBlock(), markerBlock(), optBlock(), redefBlock(), patternBlock(), labelBlock(), ifNoElseBlock(), aliasBlock(), bigintBlock(), intBoundBlock()}
+	return []fam{regressBlock(), scopeBlock(), calleeBlock(), boundaryBlock(), markerBlock(), optBlock(), redefBlock(), patternBlock(), labelBlock(), ifNoElseBlock(), aliasBlock(), bigintBlock(), intBoundBlock(), computedNavBlock()}
 }
